@@ -461,7 +461,12 @@ impl Schema {
                     None,
                 );
                 let mut streams = Vec::new();
-                subscription.collect_streams(&schema, &ctx, &mut streams, &request.root_value);
+                // introspection-only: no subscription resolver may run
+                if schema.0.env.registry.introspection_mode != IntrospectionMode::IntrospectionOnly
+                    && env.introspection_mode != IntrospectionMode::IntrospectionOnly
+                {
+                    subscription.collect_streams(&schema, &ctx, &mut streams, &request.root_value);
+                }
 
                 let mut stream = futures_util::stream::select_all(streams);
                 while let Some(resp) = stream.next().await {
